@@ -433,6 +433,99 @@ def _fold_self_assign(tree: ast.AST) -> None:
     ast.fix_missing_locations(tree)
 
 
+def _expand_method_aliases(tree: ast.AST) -> None:
+    """class R: def _code(self, el): ...; render_code_block = render_fenced_code = _code
+       ->   def render_code_block(self, el): return self._code(el)   (one forwarding method per alias)
+    A class attribute bound to a method of the same class is that method under another name; marko's render_<type> dispatch
+    and every rule that looks methods up by name see it that way."""
+    import copy
+
+    for cls in [n for n in ast.walk(tree) if isinstance(n, ast.ClassDef)]:
+        methods = {st.name: st for st in cls.body if isinstance(st, ast.FunctionDef)}
+        new_body: list[ast.stmt] = []
+        for st in cls.body:
+            if isinstance(st, ast.Assign) and isinstance(st.value, ast.Name) and st.value.id in methods and all(isinstance(t, ast.Name) for t in st.targets):
+                m = methods[st.value.id]
+                a = m.args
+                plain = not (a.vararg or a.kwarg or a.kwonlyargs or a.posonlyargs) and a.args and not m.decorator_list
+                if plain:
+                    for t in st.targets:
+                        args = copy.deepcopy(a)
+                        call = ast.Call(func=ast.Attribute(value=ast.Name(id=a.args[0].arg, ctx=ast.Load()), attr=m.name, ctx=ast.Load()),
+                                        args=[ast.Name(id=x.arg, ctx=ast.Load()) for x in a.args[1:]], keywords=[])
+                        fd = ast.FunctionDef(name=t.id, args=args, body=[ast.Return(value=call)], decorator_list=[], returns=copy.deepcopy(m.returns), type_comment=None)
+                        if hasattr(m, "type_params"):
+                            fd.type_params = []
+                        new_body.append(ast.copy_location(fd, st))
+                    continue
+            new_body.append(st)
+        cls.body = new_body
+    ast.fix_missing_locations(tree)
+
+
+def _unroll_literal_loops(tree: ast.AST) -> None:
+    """for name, element in (("HTMLBlock", CustomHTMLBlock), ("FencedCode", CustomFencedCode)): self.block_elements[name] = element
+       ->   self.block_elements["HTMLBlock"] = CustomHTMLBlock; self.block_elements["FencedCode"] = CustomFencedCode
+    A `for` over a short literal tuple / list of constants and plain names (or equal-length tuples of them) whose body is at
+    most three straight-line statements that only read the loop variables is the body written out row by row."""
+    import copy
+
+    def simple(e: ast.AST) -> bool:
+        return isinstance(e, (ast.Constant, ast.Name)) or (isinstance(e, ast.Attribute) and simple(e.value))
+
+    for fn in [n for n in ast.walk(tree) if isinstance(n, (ast.FunctionDef, ast.AsyncFunctionDef))]:
+        for holder in ast.walk(fn):
+            for fld in ("body", "orelse", "finalbody"):
+                lst = getattr(holder, fld, None)
+                if not (isinstance(lst, list) and lst and isinstance(lst[0], ast.stmt)):
+                    continue
+                for st in list(lst):
+                    if not (isinstance(st, ast.For) and not st.orelse and isinstance(st.iter, (ast.Tuple, ast.List)) and 1 <= len(st.iter.elts) <= 8):
+                        continue
+                    tnames = [st.target.id] if isinstance(st.target, ast.Name) else (
+                        [e.id for e in st.target.elts] if isinstance(st.target, (ast.Tuple, ast.List)) and all(isinstance(e, ast.Name) for e in st.target.elts) else None)
+                    if not tnames:
+                        continue
+                    rows = []
+                    for e in st.iter.elts:
+                        if isinstance(st.target, ast.Name):
+                            rows.append([e] if simple(e) else None)
+                        else:
+                            rows.append(list(e.elts) if isinstance(e, (ast.Tuple, ast.List)) and len(e.elts) == len(tnames) and all(simple(x) for x in e.elts) else None)
+                    if any(r is None for r in rows) or all(all(isinstance(x, ast.Constant) for x in r) for r in rows):
+                        continue  # (rows of constants only are left to the rules that read such tables)
+                    if len(st.body) > 3 or not all(isinstance(b, (ast.Assign, ast.AugAssign, ast.Expr)) for b in st.body):
+                        continue
+                    bad = False
+                    row_names = {x.id for r in rows for e in r for x in ast.walk(e) if isinstance(x, ast.Name)}
+                    for b in st.body:
+                        for x in ast.walk(b):
+                            if isinstance(x, ast.Name) and isinstance(x.ctx, (ast.Store, ast.Del)) and (x.id in tnames or x.id in row_names):
+                                bad = True
+                            if isinstance(x, (ast.Lambda, ast.ListComp, ast.SetComp, ast.DictComp, ast.GeneratorExp, ast.NamedExpr, ast.Yield, ast.YieldFrom, ast.Await)):
+                                bad = True
+                    # the loop variables are not read outside the loop
+                    inside = {id(x) for x in ast.walk(st)}
+                    for x in ast.walk(fn):
+                        if isinstance(x, ast.Name) and x.id in tnames and id(x) not in inside:
+                            bad = True
+                    if bad:
+                        continue
+                    out: list[ast.stmt] = []
+                    for r in rows:
+                        env = dict(zip(tnames, r))
+
+                        class _Sub(ast.NodeTransformer):
+                            def visit_Name(self, n):
+                                return ast.copy_location(copy.deepcopy(env[n.id]), n) if n.id in env and isinstance(n.ctx, ast.Load) else n
+
+                        for b in st.body:
+                            out.append(ast.copy_location(_Sub().visit(copy.deepcopy(b)), b))
+                    i = lst.index(st)
+                    lst[i:i + 1] = out
+    ast.fix_missing_locations(tree)
+
+
 def _drop_local_annotations(tree: ast.AST) -> None:
     """Inside function bodies `x: T = v` is read as `x = v` (a local annotation has no effect at run time; class bodies and
     module level keep theirs - dataclass fields and typed constants are facts the rules use)."""
@@ -553,6 +646,8 @@ class Repo:
             _unalias_bound_methods(tree)
             _desugar_functional(tree)
             _fold_self_assign(tree)
+            _expand_method_aliases(tree)
+            _unroll_literal_loops(tree)
             set_parents(tree)
             mod = Module(name=name, path=path, source=src, tree=tree)
             mod.imports = collect_imports(tree.body, name, is_pkg)
